@@ -234,9 +234,120 @@ def run_seq(case, ctx):
                 pass
 
 
+def _real_writer(storage, w, ids, conn):
+    import time
+    from .c14_sched import text_of
+    res = []
+    try:
+        storage.open()
+        for g in ids:
+            try:
+                storage[g] = text_of(w, g)
+                res.append((g, "ok"))
+            except ValueError:
+                res.append((g, "ValueError"))
+            time.sleep(0.0005)
+        storage.close()
+        conn.send(res)
+    finally:
+        os._exit(0)
+
+
+def _real_reader(storage, ids, rounds, conn):
+    res = []
+    try:
+        storage.reader_only = True
+        for _ in range(rounds):
+            for g in ids:
+                try:
+                    res.append((g, storage[g]))
+                except IndexError:
+                    res.append((g, None))
+        storage.close()
+        conn.send(res)
+    finally:
+        os._exit(0)
+
+
+def run_real_conc(case, ctx):
+    """reality tier (E4): real writer and reader processes on one storage, OS-chosen interleaving, value oracle only"""
+    from windpyutils.parallel.storage import TextFileStorage
+    from .c14_sched import text_of
+    ctx.label("real-concurrent")
+    ctx.nontrivial = True
+    mp = multiprocessing.get_context("fork")
+    with FG.Scratch() as sc:
+        d = sc.path("st")
+        os.mkdir(d)
+        s = TextFileStorage(d, number_of_data=case.get("presize"))
+        procs = []
+        try:
+            conns = []
+            for w, ids in enumerate(case["writers"]):
+                a, b = mp.Pipe()
+                p = mp.Process(target=_real_writer, args=(s, w, ids, b))
+                procs.append(p)
+                conns.append(("w", w, a))
+            for r, ids in enumerate(case["readers"]):
+                a, b = mp.Pipe()
+                p = mp.Process(target=_real_reader, args=(s, ids, 40, b))
+                procs.append(p)
+                conns.append(("r", r, a))
+            for p in procs:
+                p.start()
+            results = []
+            for kind, i, a in conns:
+                if not a.poll(120):
+                    raise Inconclusive("a real storage process gave no result within 120 s")
+                results.append((kind, i, a.recv()))
+            for p in procs:
+                p.join(30)
+            cands = {}
+            for w, ids in enumerate(case["writers"]):
+                for g in ids:
+                    cands.setdefault(g, set()).add(text_of(w, g))
+            ok = {}
+            for kind, i, res in results:
+                if kind == "w":
+                    for g, r_ in res:
+                        if r_ == "ok":
+                            ok.setdefault(g, []).append(i)
+                else:
+                    for g, v in res:
+                        if v is not None and v not in cands.get(g, ()):
+                            ctx.fail("TextFileStorage/real-concurrent/%s" % ("empty-read" if v == "" else "partial-or-foreign-read"),
+                                     "a reader process read id %d -> %r, texts stored under it: %r" % (g, v, sorted(cands.get(g, ()))))
+            for g, ws in ok.items():
+                if len(ws) > 1:
+                    ctx.fail("TextFileStorage/real-concurrent/two-stores-under-one-id-accepted", "id %d stored by writers %r" % (g, ws))
+            ids = sorted(ok)
+            if len(s) != len(ids):
+                ctx.fail("TextFileStorage/real-concurrent/final-len-wrong", "len %d, stored ids %r" % (len(s), ids))
+            if bool(s.is_contiguous()) != (ids == list(range(len(ids)))):
+                ctx.fail("TextFileStorage/real-concurrent/final-is_contiguous-wrong", "ids %r" % (ids,))
+            s.reader_only = True
+            it = list(s)
+            if len(it) != len(ids) or any(t not in cands[g] for t, g in zip(it, ids)):
+                ctx.fail("TextFileStorage/real-concurrent/final-iteration-wrong", "iteration %r for ids %r" % (it, ids))
+        finally:
+            for p in procs:
+                if p.is_alive():
+                    p.kill()
+            try:
+                s.close()
+            except Exception:  # noqa
+                pass
+            try:
+                s._manager.shutdown()
+            except Exception:  # noqa
+                pass
+
+
 def run_case(case, ctx):
     if case["kind"] == "seq":
         run_seq(case, ctx)
+    elif case["kind"] == "real-conc":
+        run_real_conc(case, ctx)
     else:
         from . import c14_sched
         c14_sched.run_case(case, ctx)
@@ -247,7 +358,11 @@ def strategies(tier):
     seq = st.fixed_dictionaries({"kind": st.just("seq"), "writers": st.sampled_from([0, 0, 1, 2, 3]),
                                  "presize": st.one_of(st.none(), st.none(), st.integers(0, 8)),
                                  "ops": st.one_of(codes(1, 8), codes(6, 24)).map(lambda cs: [dec(c) for c in cs])})
-    parts = [("sequential", seq, 60000 if big else 1500)]
+    real = st.fixed_dictionaries({"kind": st.just("real-conc"),
+                                  "writers": st.lists(st.lists(st.integers(0, 30), min_size=3, max_size=12), min_size=1, max_size=3),
+                                  "readers": st.lists(st.lists(st.integers(0, 31), min_size=1, max_size=8), min_size=1, max_size=2),
+                                  "presize": st.sampled_from([None, None, 0, 10, 40])})
+    parts = [("sequential", seq, 60000 if big else 1500), ("real-concurrent-processes", real, 1500 if big else 28, {"shrink": False})]
     try:
         from . import c14_sched
         parts += c14_sched.strategies(tier)
